@@ -1849,6 +1849,15 @@ stream_decoder_mt_memconfig(void *coder_ptr, uint64_t *memusage,
 				+ coder->outq.mem_allocated;
 	}
 
+	// If the next Block alone needs more than memlimit_stop allows,
+	// stream_decode_mt() returns LZMA_MEMLIMIT_ERROR in SEQ_BLOCK_INIT
+	// and stays there. Like the single-threaded decoder, report how
+	// much memory is needed to continue so that lzma_memusage() is
+	// useful for raising the limit with lzma_memlimit_set().
+	if (coder->sequence == SEQ_BLOCK_INIT
+			&& *memusage < coder->mem_next_filters)
+		*memusage = coder->mem_next_filters;
+
 	// If no filter chains are allocated, *memusage may be zero.
 	// Always return at least LZMA_MEMUSAGE_BASE.
 	if (*memusage < LZMA_MEMUSAGE_BASE)
